@@ -40,7 +40,8 @@ class Boom(Exception):
 
 
 # ---- (a) run histories --------------------------------------------------------------------------------
-KINDS = ('ok', 'raise', 'return7', 'return0', 'returnFalse', 'blocked', 'till', 'nested-ok', 'nested-raise', 'nested-leak')
+KINDS = ('ok', 'raise', 'raise-IndexError', 'raise-KeyError', 'raise-StopIteration', 'return7', 'return0', 'returnFalse', 'blocked',
+         'till', 'till0', 'nested-ok', 'nested-raise', 'nested-leak')
 
 
 def do_run(kind, start, log):
@@ -65,19 +66,19 @@ def do_run(kind, start, log):
         check_order(['a', 'b'])
         if marks[-1] != ('b', 'end', start + 2):
             msgs.append('ok: run returned before quiescence: %r' % (marks,))
-    elif kind == 'raise':
-        exc = Boom('x')
+    elif kind.startswith('raise'):
+        etype = {'raise': Boom, 'raise-IndexError': IndexError, 'raise-KeyError': KeyError,
+                 'raise-StopIteration': StopAsyncIteration}[kind]
+        exc = etype('x')
 
         def fail():
             raise exc
         try:
             usim.run(a('a', 1, fail), a('b', 5), start=start)
             msgs.append('raise: run() swallowed the exception of a root activity')
-        except Boom as e:
-            if e is not exc:
-                msgs.append('raise: run() raised a different exception object')
         except BaseException as e:
-            msgs.append('raise: run() raised %r instead of the root exception' % (e,))
+            if e is not exc:
+                msgs.append('%s: run() raised %r instead of the very exception of the root activity' % (kind, e))
         check_order(['a', 'b'])
     elif kind.startswith('return'):
         value = {'return7': 7, 'return0': 0, 'returnFalse': False}[kind]
@@ -107,6 +108,11 @@ def do_run(kind, start, log):
         usim.run(a('a', 3), a('b', 1), start=start, till=start + 2)
         if ('b', 'end', start + 1) not in marks or any(m[0] == 'a' and m[1] == 'end' for m in marks):
             msgs.append('till: %r' % (marks,))
+    elif kind == 'till0':
+        # a deadline of zero is a deadline
+        usim.run(a('a', 3), a('b', 1), start=-2, till=0)
+        if ('b', 'end', -1) not in marks or any(m[0] == 'a' and m[1] == 'end' for m in marks):
+            msgs.append('till0: %r' % (marks,))
     elif kind.startswith('nested'):
         inner_kind = {'nested-ok': 'ok', 'nested-raise': 'raise', 'nested-leak': 'return0'}[kind]
         inner_msgs = []
@@ -367,7 +373,7 @@ def cases(tier):
     n = 3 if tier == 'quick' else 4
     for k in range(1, n + 1):
         for seq in itertools.product(KINDS, repeat=k):
-            if k == 4 and not (seq[0] in ('ok', 'raise', 'return0', 'nested-raise')):
+            if k >= 3 and not (seq[0] in ('ok', 'raise', 'return0', 'nested-raise')):
                 continue
             out.append({'kind': 'history', 'runs': list(seq)})
     names = list(thread_programs())
